@@ -335,6 +335,8 @@ pub enum MapFn {
 pub enum Pred {
     /// I: `x % 2 == 0`
     Even,
+    /// I: `x % 2 != 0`
+    Odd,
     /// I: `x < c`
     Lt(i64),
     /// I: `x != c`
@@ -444,6 +446,18 @@ pub enum RefFn {
     Len,
     /// item I, handoff of I: emits `(x, sum of #t)`
     SumBuf,
+    /// WRITER, item I, singleton I: `*t = (*t * a + x) % M`; emits x (order sensitive)
+    MulAdd(i64),
+    /// WRITER, item I, handoff of I: `t.push(x)`; emits x
+    Push,
+    /// WRITER, item I, handoff of I: `t.retain(|y| *y != x)`; emits x
+    Retain,
+}
+
+impl RefFn {
+    pub fn is_write(&self) -> bool {
+        matches!(self, RefFn::MulAdd(_) | RefFn::Push | RefFn::Retain)
+    }
 }
 
 #[derive(Clone, Debug, PartialEq, Eq, Hash, Serialize, Deserialize)]
@@ -469,8 +483,13 @@ pub enum Op {
     Handoff,
     Singleton,
     Optional,
-    /// `map(|x| ... #target ...)`: a read-only reference holder
-    RefMap { target: usize, f: RefFn },
+    /// `map(|x| ... #{group} [mut] target ...)`: a reference holder (reader or writer)
+    RefMap {
+        target: usize,
+        f: RefFn,
+        #[serde(default)]
+        group: Option<u32>,
+    },
     // ---- multi-output
     Tee { n: usize },
     Unzip,
@@ -752,7 +771,7 @@ pub fn out_types(op: &Op, ins: &[Ty], prog_sources: &[Ty]) -> Result<Vec<Ty>, St
         Op::Filter(f) => {
             need(1)?;
             let ok = match f {
-                Pred::Even | Pred::Lt(_) | Pred::Ne(_) => ins[0] == Ty::I,
+                Pred::Even | Pred::Odd | Pred::Lt(_) | Pred::Ne(_) => ins[0] == Ty::I,
                 Pred::KeyEven | Pred::ValLt(_) | Pred::KLtV => ins[0].is_p(),
             };
             if ok {
@@ -819,7 +838,7 @@ pub fn out_types(op: &Op, ins: &[Ty], prog_sources: &[Ty]) -> Result<Vec<Ty>, St
                 return bad("ref holder items must be i64");
             }
             match f {
-                RefFn::Add => Ok(vec![i()]),
+                RefFn::Add | RefFn::MulAdd(_) | RefFn::Push | RefFn::Retain => Ok(vec![i()]),
                 _ => Ok(vec![p()]),
             }
         }
